@@ -450,7 +450,12 @@ fn step(ctx: &mut Ctx, line: &str) -> String {
         }
         ["cmp", a, b] => {
             let (Some(a), Some(b)) = (unhex(a), unhex(b)) else { return "bad-op".into() };
-            let o = <bsl::OutPoint as bitcoin_slices::redb::RedbKey>::compare(&a, &b);
+            let a0 = allocs();
+            let o = match pc(|| <bsl::OutPoint as bitcoin_slices::redb::RedbKey>::compare(&a, &b)) {
+                Ok(o) => o,
+                Err(_) => return "cmp r=panic".into(),
+            };
+            let cmp_allocs = allocs() - a0;
             let s = match o {
                 std::cmp::Ordering::Less => "lt",
                 std::cmp::Ordering::Equal => "eq",
@@ -459,7 +464,7 @@ fn step(ctx: &mut Ctx, line: &str) -> String {
             let orc = if ctx.oracles {
                 let o2 = <bsl::OutPoint as bitcoin_slices::redb::RedbKey>::compare(&b, &a);
                 let ok = o == a.as_slice().cmp(b.as_slice()) && o2 == o.reverse() && ((o == std::cmp::Ordering::Equal) == (a == b));
-                format!(" #cmp={}", if ok { "ok" } else { "FAIL" })
+                format!(" #cmp={} cmpalloc={}", if ok { "ok" } else { "FAIL" }, cmp_allocs)
             } else {
                 String::new()
             };
@@ -483,7 +488,17 @@ fn step(ctx: &mut Ctx, line: &str) -> String {
                 Ok(Some(v)) => format!("some:{}", if v.is_empty() { "-".to_string() } else { hex(&v) }),
             };
             let has = ps(|| c.contains(&WeakKey(k)).to_string());
-            format!("cget r={} has={}", g, has)
+            if ctx.oracles {
+                // `get_value` is `get` seen through a redb value type: for plain byte strings it is `get` itself
+                let gv = match (pc(|| c.get_value::<&[u8]>(&WeakKey(k)).map(|v| v.to_vec())), pc(|| c.get(&WeakKey(k)).map(|v| v.to_vec()))) {
+                    (Ok(a), Ok(b)) if a == b => "ok",
+                    (Err(_), Err(_)) => "ok",
+                    _ => "FAIL:get_value-differs-from-get",
+                };
+                format!("cget r={} has={} #gv={}", g, has, gv)
+            } else {
+                format!("cget r={} has={}", g, has)
+            }
         }
         _ => "bad-op".into(),
     }
